@@ -9,22 +9,22 @@ META = {
  'C01': ('contract on Grammar.parse (icontract) vs. the input text', 'Every generated execution of the real Grammar.parse is judged by a post-condition: root, every node and the leaf tiling reproduce the input exactly. Exploration over ~10^5 (quick) / 10^6 (thorough) hostile inputs, whole files and bytes inputs on all nine grammars; nothing is claimed for inputs not generated.', 'oracle is equality with the input text; bytes decoding trusted to C15'),
  'C02': ('exception observer + shape contract on Grammar.parse; sys.monitoring step budget; CPU-time budget on a killable child process', 'Totality is observed on every generated execution (no exception, well-formed module), also after abandoned prior calls; termination is judged by a logical step budget on LINE events and by a CPU-time budget per input measured on a killable child (sees spins inside C code), never by wall-clock. Exploration: hostile mix, whole files, nesting ladder to depth 95.', 'nesting bounded by construction; estimator only excuses RecursionError above 100 levels'),
  'C03': ('contract on Grammar.parse vs. independent position walker', 'Each leaf/node position of each generated tree is compared with a position computed from the text alone. Exploration biased to multi-line tokens, \\r, non-Python separators, BOM, zero-width error leaves.', 'walker counts only \\n, \\r\\n, \\r; BOM zero width at offset 0'),
- 'C04': ('contract on DiffParser.update + fresh-parse reference model after every step (tree signature, parents, code, used names, helper-derived facts)', 'Every step of every generated edit history is compared with a fresh parse (signature, parents, code, used names, facts derived by the helpers and primed on the old tree); DEBUG_DIFF_PARSER asserts switched on as a second alarm. Exploration over histories of 1-8 steps on corpus slices, structured template programs and garbage.', 'fresh parse is the reference model'),
+ 'C04': ('contract on DiffParser.update + fresh-parse reference model after every step (tree signature, parents, code, used names, helper-derived facts)', 'Every step of every generated edit history is compared with a fresh parse (signature, parents, code, used names, facts derived by the helpers and primed on the old tree); DEBUG_DIFF_PARSER asserts switched on as a second alarm. Exploration over histories of 1-8 steps on corpus slices, structured template programs and garbage, in LF / CRLF / bare-CR form, with edits of the file's tail, long tokens, and 15 % of the histories in a crowded in-memory cache (650 other modules, recent or 20 minutes old).', 'fresh parse is the reference model'),
  'C05': ('conformance walk of every node against an independent EBNF/NFA model', 'Every non-error node of every generated tree is simulated against the NFA of its rule built from the grammar text by an independent reader; error nodes only where stmt/suite is expected. Exploration.', 'six documented tree conventions (DESIGN C05)'),
  'C06': ('bounded-exhaustive + random grammar derivations through the real parser (token and text mode, strict and recovering) vs. the generating derivation; plan-coverage counter', '(a) every rule reachable from file_input/eval_input, in a cheapest context, with every form of its right-hand side and one level of child forms (bounded-exhaustive, capped per rule); (b) random derivations with first-token steering. Each is parsed in token mode and text mode and compared with the derivation under the collapsing conventions; the run reports the fraction of transition plans taken and is inconclusive below a floor.', 'expected-tree conventions written from the property text'),
  'C07': ('both parser modes on one input, compared', 'Strict and recovering parses of each generated input are compared (raises iff error marks; same tree; same first error token/position).', 'zero-width indentation tokens compared by position only'),
  'C08': ('post-condition on generate_grammar: bisimulation with independent NFA + FIRST/push-chain model', 'All shipped grammar files exhaustively (every rule, state, plan) on every run, plus random small EBNF grammars incl. non-LL(1)/left-recursive ones.', 'independent EBNF reader and subset construction'),
  'C09': ('online token-stream checker + contract on split_prefix', 'Each token is checked as it is produced (tiling, position, balance, prefix purity); each prefix split is checked for tiling and part positions. Exploration over hostile text on the nine token collections.', 'prefix purity pattern from the property text'),
  'C10': ('normalised token comparison against CPython 3.6-3.13 tokenize servers', 'Reference-model monitor: each program CPython V tokenizes and compiles is tokenized by parso(V) and compared token by token.', 'CPython tokenize module is the reference; compile-filter defines valid programs'),
- 'C11': ('navigation walk + contract on get_leaf_for_position vs. plain leaf list', 'Identity comparison of the navigation API against a plain walk on every generated tree, every position of small texts.', 'expected leaf = first leaf with end_pos >= pos'),
+ 'C11': ('navigation walk + contract on get_leaf_for_position vs. plain leaf list', 'Identity comparison of the navigation API against a plain walk on every generated tree (random-order queries first, then the ordered walk incl. next/previous leaf of inner nodes and the root), every position of small texts; the same on trees that went through incremental updates, where the lookups the diff parser itself made during the update are asked again first.', 'expected leaf = first leaf with end_pos >= pos'),
  'C12': ('contract on iter_errors vs. CPython V and 3.8 compile servers', 'Reference-model monitor over standard libraries, derived and mutated programs that CPython compiles.', 'CPython compile() is the reference; 3.8-compilability = common LL(1) syntax'),
- 'C13': ('contract on iter_errors: tree coherence, purity, determinism', 'Every generated tree is listed twice; issues are checked against the tree\'s own error marks, the strict parser and a before/after signature.', 'tree signature decides purity'),
+ 'C13': ('contract on iter_errors: tree coherence, purity, determinism', 'Every generated tree is listed twice (and again after 40 other texts); issues are checked against the tree\'s own error marks, the strict parser and a before/after signature; sub-trees (functions, classes, suites, error nodes, inner nodes) are listed as well: total, repeatable, inside the file.', 'tree signature decides purity'),
  'C14': ('helper calls on every name/scope/function/import vs. CPython ast', 'Reference-model monitor: facts from ast.parse of the running interpreter vs. parso helpers for each compiled program.', 'CPython 3.12 ast is the reference'),
- 'C15': ('contracts on python_bytes_to_unicode and split_lines vs. tokenize.detect_encoding / reference splitter', 'Exploration over byte cookies x BOM x newline styles and separator strings (exhaustive to length 5).', 'CPython detect_encoding is the reference on its domain'),
- 'C16': ('history explorer under a virtual clock; fresh parse of current content as reference', 'Random operation histories incl. writes during an in-flight (plain and diff_cache) parse, memory-cache eviction followed by a cross-grammar parse, version-sensitive contents; virtual time so that no verdict depends on mtime granularity; line-granular injection of the external write.', 'virtual clock rebinding of time in parso.cache'),
- 'C17': ('fault enumeration: every truncation offset, corruptions, exception at each fs call site', 'Each enumerated fault (every truncation offset, corruptions, bit flips, stray files, errno at every fs call site with crash snapshots, two processes) is followed by a cached parse that must succeed and equal a fresh parse, and by a repairing save verified on disk; clean-up under the virtual clock with independent access/modification times.', 'prefix-truncation and arbitrary-content crash models'),
- 'C18': ('threads with yield injection on shared grammars; deep state fingerprint at quiescent points', 'Results of concurrent calls compared with sequential replay; fingerprint of all shared parso state before/after.', 'interleavings at statement granularity (GIL)'),
- 'C19': ('eval(dump), pickle and refactor on every generated tree vs. signature / independent splice', 'Exploration over hostile trees, all indent styles, two pickle protocols, random disjoint refactor maps.', 'tree signature defines tree equality'),
+ 'C15': ('contracts on python_bytes_to_unicode and split_lines vs. tokenize.detect_encoding / reference splitter', 'Exploration over byte cookies x blank-ish first lines x BOM x newline styles and separator strings (exhaustive to length 5); for every third random string the driver edits the returned list in place and splits again (results must not be shared between callers).', 'CPython detect_encoding is the reference on its domain'),
+ 'C16': ('history explorer under a virtual clock; fresh parse of current content as reference', 'Random operation histories incl. writes during an in-flight (plain and diff_cache) parse, memory-cache eviction followed by a cross-grammar parse, version-sensitive contents; files on three modification-time lines (virtual clock, epoch from exactly 0.0, 20 years ahead; every utime read back); virtual time so that no verdict depends on mtime granularity; line-granular injection of the external write.', 'virtual clock rebinding of time in parso.cache'),
+ 'C17': ('fault enumeration: every truncation offset, corruptions, exception at each fs call site', 'Each enumerated fault (every truncation offset, corruptions, bit flips, stray files, errno at every fs call site with crash snapshots, two processes) is followed by a cached parse that must succeed and equal a fresh parse, and by a repairing save verified on disk; clean-up under the virtual clock with independent access/modification times over complete, empty and half-written entries and with a save by another process in progress.', 'prefix-truncation and arbitrary-content crash models'),
+ 'C18': ('threads with yield injection on shared grammars; deep state fingerprint at quiescent points', 'Results of concurrent calls compared with sequential replay and a fresh process; fingerprint of all shared parso state before/after; 15 % of the non-caching calls carry the path of a file that sits in the cache with another content and must equal the same call without the path.', 'interleavings at statement granularity (GIL)'),
+ 'C19': ('eval(dump), pickle and refactor on every generated tree vs. signature / independent splice', 'Exploration over hostile trees, all indent styles, two pickle protocols (fresh trees and trees already queried through the read-only API; the copy must answer the same queries), random disjoint refactor maps, and deep-nesting programs with the first target on the deepest leaf (target depths up to the recursion limit of the walkers).', 'tree signature defines tree equality'),
  'C20': ('contract on _get_normalizer_issues: totality, well-formedness, stability across tree provenance', 'Exploration over whole files, garbage, histories under nine configurations.', 'mechanism-keyed known findings for the crash sites'),
 }
 CATEGORY = {'C17': 'fault_enumeration'}
